@@ -85,7 +85,7 @@ class C08(Prop):
     PROBES = ['crash-between-close-and-rename', 'crash-inside-last-resource', 'torn-write-landed', 'final-file-present-after-fault',
               'two-checkpoints-first-complete-second-not', 'fault-not-reached', 'io-error-at-rename', 'io-error-at-close',
               'recovery-from-complete-checkpoint', 'recovery-from-scratch', 'empty-resource', 'sweep-complete', 'healthy-run-before-failed-run-was-finalised']
-    TIERS = {'quick': dict(runs=700, wall=100, run_wall=90),
+    TIERS = {'quick': dict(runs=700, wall=100, run_wall=300),
              'thorough': dict(runs=1500, wall=1500, run_wall=600)}
     SHRINK_FROZEN = ('fields',)
 
